@@ -15,18 +15,18 @@ def run(tier, seed):
     P = ("C05",)
     ex = ("commit", "abort", "badarg", "wfail")
     for prune in (False, True):
-        run_hex(rep, f"H5xSL batch<=1 prune={prune}", universe="H5", values=("S", "L"), prune=prune, props=P, batch_len=1, exits=ex,
+        run_hex(rep, f"H5xSL batch<=1 prune={prune}", universe="H5", values=("S", "L"), prune=prune, props=P + (("C06",) if prune else ()), batch_len=1, exits=ex,
                 state_cap=6000)
     if tier == "thorough":
         for prune in (False, True):
-            run_hex(rep, f"H5xSL batch<=2 prune={prune}", universe="H5", values=("S", "L"), prune=prune, props=P, batch_len=2, exits=ex,
+            run_hex(rep, f"H5xSL batch<=2 prune={prune}", universe="H5", values=("S", "L"), prune=prune, props=P + (("C06",) if prune else ()), batch_len=2, exits=ex,
                     state_cap=6000)
-            run_hex(rep, f"H3xSL batch<=3 prune={prune}", universe="H3", values=("S", "L"), prune=prune, props=P, batch_len=3,
+            run_hex(rep, f"H3xSL batch<=3 prune={prune}", universe="H3", values=("S", "L"), prune=prune, props=P + (("C06",) if prune else ()), batch_len=3,
                     exits=("commit", "abort"), state_cap=6000)
-            run_hex(rep, f"HSxSL batch<=1 prune={prune}", universe="HS", values=("S", "L"), prune=prune, props=P, batch_len=1, exits=ex,
+            run_hex(rep, f"HSxSL batch<=1 prune={prune}", universe="HS", values=("S", "L"), prune=prune, props=P + (("C06",) if prune else ()), batch_len=1, exits=ex,
                     state_cap=6000)
-            run_hex(rep, f"H5xST29L batch<=1 prune={prune}", universe="H5", values=("S", "T29", "L"), prune=prune, props=P, batch_len=1,
+            run_hex(rep, f"H5xST29L batch<=1 prune={prune}", universe="H5", values=("S", "T29", "L"), prune=prune, props=P + (("C06",) if prune else ()), batch_len=1,
                     exits=ex, state_cap=6000)
-            run_hex(rep, f"H4xSL nested prune={prune}", universe="H4", values=("S", "L"), prune=prune, props=P, batch_len=1,
+            run_hex(rep, f"H4xSL nested prune={prune}", universe="H4", values=("S", "L"), prune=prune, props=P + (("C06",) if prune else ()), batch_len=1,
                     exits=("commit", "abort"), nested=True, state_cap=6000)
     return rep
